@@ -213,11 +213,20 @@ def main(tier_: str) -> int:
                   for o in ('depth=30', 'depth=20&mup=4', 'depth=45&drm=all')]
             # the manifest reload counter a player sends when it follows the MPD's own <Location> (update=<n>)
             pv_upd = ['start=2024-02-29T23:50:00Z&depth=30&patch=1&update=1', 'start=epoch&depth=20&mup=4&patch=1&update=7']
-            for qs in (pv + pv_upd if tier_ == 'thorough' else rng.sample(pv[:9], 3) + rng.sample(pv[9:15], 2) + rng.sample(pv[15:], 2) + pv_upd[:1]):
-                for ds in (rng.sample(dsecs, 6) if tier_ == 'quick' else dsecs):
+            # a stream with option defaults of its own (time-shift buffer 60 s, update period 6 s): options a request spells out - also
+            # with the value of the global default - are the options of the manifest, hence of the patch its PatchLocation names
+            da.add_fixture('bbb', directory='sdef', title='stream with its own option defaults', only={'bbb_v7', 'bbb_a1'},
+                           defaults={'timeShiftBufferDepth': 60, 'minimumUpdatePeriod': 6})
+            pv_def = [('sdef', 'start=2024-02-29T23:50:00Z&depth=1800&patch=1'), ('sdef', 'start=2024-02-29T23:50:00Z&patch=1'),
+                      ('sdef', 'start=2024-02-29T23:50:00Z&depth=1800&mup=8&patch=1'), ('sdef', 'start=epoch&depth=40&patch=1')]
+            pvs = [('bbb', x) for x in (pv + pv_upd if tier_ == 'thorough' else
+                                        rng.sample(pv[:9], 3) + rng.sample(pv[9:15], 2) + rng.sample(pv[15:], 2) + pv_upd[:1])]
+            pvs += pv_def if tier_ == 'thorough' else pv_def[:2] + rng.sample(pv_def[2:], 1)
+            for stream_p, qs in pvs:
+                for ds in (rng.sample(dsecs, 6 if stream_p == 'bbb' else 3) if tier_ == 'quick' else dsecs):
                     t1 = base + datetime.timedelta(seconds=rng.choice([0, 0.25, 2.0, 3.5, 180.75]))
                     t2 = t1 + datetime.timedelta(seconds=ds)
-                    url = f'/dash/live/bbb/hand_made.mpd?{qs}'
+                    url = f'/dash/live/{stream_p}/hand_made.mpd?{qs}'
                     da.clock.set(t1)
                     r1 = c.get(url)
                     if r1.status_code != 200:
